@@ -140,7 +140,10 @@ impl NetcodeServer {
             connect_key,
             max_clients: config.max_clients,
             challenge_sequence: 0,
-            global_sequence: 0,
+            // Challenge and denied packets are sealed under the same server-to-client key as the
+            // session that follows, whose sequence starts at 0: keep the two nonce ranges disjoint
+            // (same value as the netcode reference implementation).
+            global_sequence: 1 << 63,
             challenge_key,
             public_addresses: config.public_addresses,
             current_time: config.current_time,
